@@ -19,14 +19,18 @@ META = {
                   "servers registered under the upper-cased name, not unregistered since and refreshed within the pruning interval, one per address, oldest "
                   "refresh first, for any monotone clock and any equality on port values (c18_query_exact), and it is delivered whenever every registered "
                   "address can be encoded, which a tree validating at registration guarantees (c18_query_delivered); no value in place of (magic, command, "
-                  "args), no byte string and no reply that cannot be encoded ends the loop (c18_loop_survives); a request changes only the entries it names "
+                  "args), no byte string and no reply that cannot be encoded ends the loop (c18_loop_survives); SCOPE: ports that are not == to themselves (NaN) are "
+                  "excluded by the reflexivity hypothesis on the key equality (refuted outside it: c18_self_unequal_port_refuted; enforced by a tree whose "
+                  "cmd_register compares the address with a copy: c18_registered_ports_self_equal), and 'delivered' means encoded and handed to _send -- that the "
+                  "answer fits the MAX_DGRAM_SIZE bytes a stock client reads, or a datagram at all, is only a hypothesis (c18_reply_size_partial) refuted by ninety "
+                  "genuine servers of one name (c18_reply_size_refuted, known finding); a request changes only the entries it names "
                   "(c18_no_collateral, c18_malformed_dropped). Notifications: exact against the KEYS OF THE TABLE per step (c18_notifications_exact); against "
                   "the property's freshness-based membership only the lazy version holds and is what is proved (c18_notifications_fresh_partial: log balance "
                   "= table membership, fresh registered entries are in the table, unregistered ones are not, equality right after a query for the name); the "
                   "strict reading is refuted on every tree (c18_notifications_fresh_refuted, known finding). TCP is partial: silent clients are invisible and "
                   "nobody is starved given the generated flags and at least one spare descriptor (c18_tcp_silent_client_partial), each silent client ahead costs "
                   "one server timeout (c18_tcp_latency_partial), which with the stock constants defeats the stock client (c18_tcp_stock_client_refuted, known "
-                  "finding). Every clause that is false on a tree with a defect is guarded by one of six facts regenerated from registry.py on every run and "
+                  "finding). Every clause that is false on a tree with a defect is guarded by one of seven facts regenerated from registry.py on every run and "
                   "has a _refuted theorem with the witness. Proof is the right level: the property quantifies over unbounded histories and arbitrary datagrams.",
     "level_note": "Trusted: Coq kernel, pygen, extraction + driver, harness. Python's str.upper/lower, frozenset iteration order, == on port values and "
                   "'brine.dump succeeds at this stack depth' (enc) are parameters of the model (theorems hold for all of them); the extracted instance uses "
@@ -47,8 +51,10 @@ META = {
         "brine.dump(((host, port),)) evaluated inside cmd_register fails whenever the later brine.dump of a reply containing (host, port) would "
         "(same nesting, one frame deeper); the only way a loaded value fails to encode is the recursion limit",
         "a TCP client that stays silent stays silent for ever; every accepted socket costs one descriptor until it is closed",
-        "loopback verdicts: a positive expectation waits up to 30 s and returns as soon as the answer arrives; a server is given up on earlier only when "
-        "/proc shows it has no descriptor left",
+        "loopback TCP: the harness servers give an accepted socket 1 s (stock: 3 s) to speak; a well-formed harness client that is dropped without a word is retried "
+        "up to four times before it counts as unanswered",
+        "loopback verdicts: a positive expectation waits up to 30 s and returns as soon as the answer arrives; a server is given up on earlier (3 s) only when "
+        "/proc shows it has no descriptor left or the exact answer is larger than any UDP datagram (65507 bytes)",
     ],
 }
 
@@ -279,9 +285,23 @@ def run_history(ctx, pruning, events, model_out=None, label="history"):
             # ---- a register may be refused (no acknowledgement, nothing changed) only when its address could not be
             #      sent back in a reply; whatever is acknowledged counts as registered
             if exc is None and kind == "register" and not sent and not notes and before == after \
-                    and not clearly_encodable(((host, what[2]),)):
+                    and (not clearly_encodable(((host, what[2]),)) or not self_equal(what[2])):
                 ctx.count("register-refused:unanswerable-address")
                 what, kind = ("refused",), "refused-register"
+            # ---- ports that do not compare equal to themselves (NaN, also nested): a dict cannot find them again.  They are judged
+            #      by their printed form here and kept out of the reference table; the set comparisons stop for this history.
+            if kind in ("register", "unregister") and not self_equal(what[2] if kind == "register" else what[1]):
+                port = what[2] if kind == "register" else what[1]
+                me = rkey((host, port))
+                same = {n: sum(1 for a in tb if rkey(a) == me) for n, tb in srv.services.items()}
+                ctx.count("dgram:self-unequal-port")
+                if kind == "register" and exc is None and any(c > 1 for c in same.values()):
+                    ctx.violation("self-unequal-port:registered-more-than-once", case(), observed=short(same), expected="one entry per address",
+                                  what="a port that is not equal to itself (NaN) is added again by every REGISTER: the query answer lists the address several times")
+                if kind == "unregister" and exc is None and any(same.values()):
+                    ctx.violation("self-unequal-port:unregister-ineffective", case(), observed=short(same), expected="no entry left",
+                                  what="UNREGISTER of a port that is not equal to itself (NaN) is acknowledged and removes nothing")
+                what, kind, diverged = ("self-unequal",), "self-unequal-port", True
             # ---- replies
             if exc is None and kind in COMMANDS and not diverged:
                 if len(sent) != 1 or sent[0][1] != (host, sport):
@@ -301,6 +321,9 @@ def run_history(ctx, pruning, events, model_out=None, label="history"):
                         if not ok:
                             ctx.violation("query-wrong-set", case(), observed=short(rep), expected=short(sorted(exp.items(), key=lambda x: x[1])),
                                           what="query answer is not exactly the registered, not unregistered, fresh servers")
+                        elif len(sent[0][0]) > R.MAX_DGRAM_SIZE:
+                            ctx.violation("query-reply-exceeds-max-dgram-size", case(), observed="%d bytes" % len(sent[0][0]), expected="at most MAX_DGRAM_SIZE = %d bytes" % R.MAX_DGRAM_SIZE,
+                                          what="the (correct) answer to a query is longer than the MAX_DGRAM_SIZE bytes a stock client reads: discover() fails or returns a cut-off list")
                         elif [exp[a] for a in rep] != sorted(exp[a] for a in rep):
                             ctx.violation("query-wrong-order", case(), observed=short([(a, exp[a]) for a in rep]), expected="oldest refresh first",
                                           what="query answer is not ordered by refresh time")
@@ -360,7 +383,7 @@ def run_history(ctx, pruning, events, model_out=None, label="history"):
                             ctx.violation("notification:added-without-fresh-change", case(), observed=obs, expected=expd,
                                           what="on_service_added fired although the fresh registered set did not gain that entry")
             fresh_prev = fresh_now
-            if kind not in COMMANDS and exc is None and before != after:
+            if kind not in COMMANDS and kind != "self-unequal-port" and exc is None and before != after:
                 ctx.violation("collateral:malformed-changed-table:" + kind, case(), observed=short(sorted(after ^ before, key=rkey)), expected="no change",
                               what="a malformed datagram changed the table")
             # ---- correspondence
@@ -400,7 +423,7 @@ HOSTS = ["10.0.0.1", "10.0.0.2", "hostA", "reg.example"]
 NAMES = ["foo", "FOO", "Foo", "bar", "Bar", "baz", "a", "x_1", "svc-9", "", "foo bar"]
 ODD_NAMES = ["straße", "STRASSE", "ǆ", "İx", "naïve", "K"]
 PORTS = [1234, 999, 18812, 0, 65535, 2 ** 40, -1, 1234, 999, "http", b"p", None, (1, 2), ("a", (b"b", None))]
-ODD_PORTS = [1.5, True, 1, 1.0, 2 + 0j, frozenset([1]), slice(1, 2, 3), -0.0, 0]
+ODD_PORTS = [1.5, True, 1, 1.0, 2 + 0j, frozenset([1]), slice(1, 2, 3), -0.0, 0, float("nan"), (1, float("nan")), float("nan")]
 SHAPES = [None, NotImplemented, Ellipsis, True, False, 0, 5, -1, 10 ** 30, 1.5, float("inf"), 2 + 3j, b"", b"RPYC", b"query", b"abc",
           "", "RPYC", "rpyc", "QUERY", "x", "abc", "\ud800", "é", (), (1,), ("a", "b"), ("a", 5), ("RPYC", "QUERY", ("x",)),
           frozenset(), frozenset([1]), frozenset(["foo"]), frozenset(["a", "b"]), slice(1, 2, 3), slice(None), ((),), (("foo",), 7),
@@ -420,6 +443,14 @@ def spell(r, cmd):
 
 def dg(*triple):
     return brine.dump(tuple(triple))
+
+
+def self_equal(v):
+    """v compares equal to a copy of itself that went through the wire (False for NaN, also nested)"""
+    try:
+        return brine.load(brine.dump(v)) == v
+    except (RecursionError, ValueError):
+        return True
 
 
 def _under(frames, f):
@@ -458,6 +489,23 @@ def dg_deep(n, where, cmd="REGISTER", name="deep"):
     z = brine.dump(0)
     assert head.endswith(z)
     return head[:-len(z)] + deep_bytes(n)
+
+
+def big_histories():
+    """answers that outgrow MAX_DGRAM_SIZE: many genuine registrants of one name; a few bulky ports; and NaN ports"""
+    many = [(1000 + k, "10.1.%d.%d" % (k // 200, k % 200), 4000 + k, dg("RPYC", "REGISTER", (("foo",), 20000 + k))) for k in range(90)]
+    many += [(1100, "10.0.0.9", 5000, dg("RPYC", "QUERY", ("foo",))), (1101, "10.0.0.9", 5001, dg("RPYC", "QUERY", ("bar",)))]
+    bulky = [(1000, "10.0.0.1", 5000, dg("RPYC", "REGISTER", (("foo",), 18812))),
+             (1001, "10.0.0.2", 5001, dg("RPYC", "REGISTER", (("foo",), "A" * 801))),
+             (1002, "10.0.0.2", 5002, dg("RPYC", "REGISTER", (("foo",), "B" * 801))),
+             (1003, "10.0.0.3", 5003, dg("RPYC", "QUERY", ("foo",)))]
+    nan = float("nan")
+    nans = [(1000, "10.0.0.1", 5000, dg("RPYC", "REGISTER", (("foo",), nan))), (1001, "10.0.0.1", 5001, dg("RPYC", "REGISTER", (("foo",), nan))),
+            (1002, "10.0.0.2", 5002, dg("RPYC", "QUERY", ("foo",))), (1003, "10.0.0.1", 5003, dg("RPYC", "UNREGISTER", (nan,))),
+            (1004, "10.0.0.2", 5004, dg("RPYC", "QUERY", ("foo",)))]
+    nested = [(1000, "10.0.0.1", 5000, dg("RPYC", "REGISTER", (("foo",), (1, nan)))), (1001, "10.0.0.1", 5001, dg("RPYC", "REGISTER", (("foo",), (1, nan)))),
+              (1003, "10.0.0.1", 5003, dg("RPYC", "UNREGISTER", ((1, nan),))), (1004, "10.0.0.2", 5004, dg("RPYC", "QUERY", ("foo",)))]
+    return [(240, many), (240, bulky), (240, nans), (240, nested)]
 
 
 def deepest_accepted():
@@ -621,11 +669,11 @@ def _typed_items(mod):
 
 
 FACTS = ("cmd_lookup_guarded", "remove_notifies_only_present", "tcp_accepted_timeout",
-         "reply_dump_guarded", "register_validates_reply", "tcp_recv_closes_unanswered")
+         "reply_dump_guarded", "register_validates_reply", "tcp_recv_closes_unanswered", "register_requires_self_equal")
 
 
 def gen_facts():
-    """the six facts of the tree under test as the translator reads them (defect values if unreadable)"""
+    """the seven facts of the tree under test as the translator reads them (defect values if unreadable)"""
     t = _typed_items("registry")
     return [int(t.get(k) == "true") for k in FACTS]
 
@@ -684,7 +732,7 @@ class UDPSrv(NoteMixin, R.UDPRegistryServer):
 
 
 class TCPSrv(NoteMixin, R.TCPRegistryServer):
-    TIMEOUT = 0.25
+    TIMEOUT = 1.0       # also the patience with an ACCEPTED socket: well-formed harness clients that are dropped are retried (see _tcp_request)
     notes = None
 
 
@@ -759,6 +807,63 @@ def udp_run(ctx, datagrams):
             ctx.tie_broken("harness:udp-server-did-not-stop", "")
 
 
+def udp_big_run(ctx, regs, label):
+    """real UDP loopback with the stock client: registrations whose combined answer outgrows MAX_DGRAM_SIZE (or a UDP datagram)"""
+    srv = UDPSrv(host="127.0.0.1", port=0, pruning_timeout=240, logger=_quiet)
+    th = _start(srv)
+    port = srv.port
+    case = {"kind": "udp-big", "label": label, "regs": [d.hex() for d in regs]}
+    try:
+        s = socket.socket(socket.AF_INET, socket.SOCK_DGRAM)
+        s.settimeout(LIMIT)
+        spec = Spec(240)
+        acks = 0
+        try:
+            for d in regs:
+                s.sendto(d, ("127.0.0.1", port))
+                spec.apply(spec_classify(d), "127.0.0.1", 0)
+                try:
+                    acks += brine.load(s.recvfrom(65536)[0]) == "OK"
+                except (socket.timeout, OSError):
+                    break
+            want = set(spec.fresh("FOO", 0))
+            size = len(brine.dump(tuple(want)))
+            ctx.case(("udp-big", label), nontrivial=True, sample={"udp_big": label, "registrations": len(regs), "acknowledged": acks, "answer_bytes": size})
+            ctx.count("socket:udp-big-run")
+            if acks != len(regs):
+                ctx.tie_broken("harness:udp-big-register", "%d of %d registrations acknowledged" % (acks, len(regs)))
+                return
+            if size > 65507:
+                # no UDP datagram can carry it: the short wait cannot turn a slow answer into a failure
+                s.settimeout(3.0)
+                s.sendto(dg("RPYC", "QUERY", ("foo",)), ("127.0.0.1", port))
+                try:
+                    raw = s.recvfrom(70000)[0]
+                except (socket.timeout, OSError):
+                    raw = b""
+                if not raw:
+                    ctx.violation("udp-answer-over-datagram-size-never-sent", case, observed="no answer; the exact answer needs %d bytes" % size, expected="an answer",
+                                  what="when the answer to a query does not fit one UDP datagram sendto() fails, the error is swallowed and the client never hears anything: "
+                                       "whoever keeps such registrations alive makes that name unanswerable")
+                return
+            cl = R.UDPRegistryClient(ip="127.0.0.1", port=port, timeout=LIMIT, logger=_quiet)
+            try:
+                ans = cl.discover("foo")
+            except Exception as e:
+                ans = e
+            good = type(ans) is tuple and set(ans) == want and len(ans) == len(want)
+            if not good and th.is_alive() and srv.crash is None:
+                ctx.violation("udp-discover-unusable-answer-over-max-dgram-size", case, observed=short(ans), expected="%d servers (%d bytes encoded)" % (len(want), size),
+                              what="the answer is longer than MAX_DGRAM_SIZE: the stock client reads only its first %d bytes and fails or returns a cut-off list" % R.MAX_DGRAM_SIZE)
+            elif not good:
+                ctx.violation("loop-dies:udp-big", case, observed=repr(srv.crash), expected="server keeps answering", what="the UDP registry ended")
+        finally:
+            s.close()
+    finally:
+        if not _stop(srv, th):
+            ctx.tie_broken("harness:udp-server-did-not-stop", "")
+
+
 def tcp_run(ctx, model, script):
     """real TCP loopback. script: list of 'silent' | 'partial' | 'register' | 'query' ; clients connect in that order and
     silent/partial ones stay connected.  Every 'query' must be answered within the bound."""
@@ -778,30 +883,9 @@ def tcp_run(ctx, model, script):
                 _time.sleep(0.05)
                 answers.append(None)
             elif step == "register":
-                cl = R.TCPRegistryClient("127.0.0.1", port=port, timeout=bound, logger=_quiet)
-                s = socket.socket(socket.AF_INET, socket.SOCK_STREAM)
-                s.settimeout(bound)
-                try:
-                    s.connect(("127.0.0.1", port))
-                    s.send(dg("RPYC", "REGISTER", (("foo",), 1234)))
-                    try:
-                        answers.append(s.recv(1500))
-                    except (socket.timeout, OSError):
-                        answers.append(b"")
-                finally:
-                    s.close()
+                answers.append(_tcp_request(port, dg("RPYC", "REGISTER", (("foo",), 1234)), bound))
             else:
-                s = socket.socket(socket.AF_INET, socket.SOCK_STREAM)
-                s.settimeout(bound)
-                try:
-                    s.connect(("127.0.0.1", port))
-                    s.send(dg("RPYC", "QUERY", ("foo",)))
-                    try:
-                        answers.append(s.recv(1500))
-                    except (socket.timeout, OSError):
-                        answers.append(b"")
-                finally:
-                    s.close()
+                answers.append(_tcp_request(port, dg("RPYC", "QUERY", ("foo",)), bound))
         ctx.case(("tcp", tuple(script)), nontrivial=True, sample={"tcp_script": script, "answers": [a.hex() if a else a for a in answers]})
         ctx.count("socket:tcp-run")
         starved = [i for i, (st, a) in enumerate(zip(script, answers)) if st in ("register", "query") and not a]
@@ -848,7 +932,7 @@ import os, resource, sys, logging
 logging.disable(logging.CRITICAL)
 from rpyc.utils.registry import TCPRegistryServer
 class S(TCPRegistryServer):
-    TIMEOUT = 0.25
+    TIMEOUT = 1.0
 srv = S(host="127.0.0.1", port=0, pruning_timeout=240)
 spare = int(sys.argv[1])
 used = len(os.listdir("/proc/self/fd")) - 1
@@ -858,21 +942,31 @@ srv.start()
 """
 
 
-def _tcp_request(port, data, limit):
-    """one TCP request; returns the reply bytes, b'' when nothing came within the limit"""
-    s = socket.socket(socket.AF_INET, socket.SOCK_STREAM)
-    s.settimeout(limit)
-    try:
-        s.connect(("127.0.0.1", port))
-        s.send(data)
+def _tcp_request(port, data, limit, tries=4):
+    """one well-formed TCP request; returns the reply bytes, b'' when nothing came within the limit.
+    A server that closes the connection without a word (it lost patience with the accepted socket because this client was
+    descheduled between connect and send, or the connection was reset) is asked again: only silence for the whole limit,
+    or repeated dropping, counts as unanswered."""
+    for _ in range(tries):
+        s = socket.socket(socket.AF_INET, socket.SOCK_STREAM)
+        s.settimeout(limit)
         try:
-            return s.recv(1500)
-        except (socket.timeout, OSError):
-            return b""
-    except (socket.timeout, OSError):
-        return b""
-    finally:
-        s.close()
+            s.connect(("127.0.0.1", port))
+            s.sendall(data)
+            try:
+                got = s.recv(65536)
+            except socket.timeout:
+                return b""              # connected, request sent, nothing for the whole limit
+            if got:
+                return got
+        except socket.timeout:
+            return b""                  # could not even connect within the limit
+        except OSError:
+            pass                        # reset / refused: ask again
+        finally:
+            s.close()
+        _time.sleep(0.05)
+    return b""
 
 
 def tcp_leak_run(ctx, model, spare, extra, bad=None):
@@ -939,9 +1033,10 @@ def tcp_stock_run(ctx):
     held = None
     case = {"kind": "tcp-stock"}
     try:
-        cl = R.TCPRegistryClient("127.0.0.1", port=srv.port, logger=_quiet)
-        ok = cl.register(("foo",), 1234)
-        first = cl.discover("foo")
+        patient = R.TCPRegistryClient("127.0.0.1", port=srv.port, timeout=LIMIT, logger=_quiet)
+        ok = patient.register(("foo",), 1234)          # preliminaries are positive expectations: long limit
+        first = patient.discover("foo")
+        cl = R.TCPRegistryClient("127.0.0.1", port=srv.port, logger=_quiet)      # the stock client under test
         held = socket.create_connection(("127.0.0.1", srv.port), timeout=LIMIT)
         _time.sleep(0.05)
         t0 = _time.time()
@@ -982,7 +1077,9 @@ def run(ctx):
         "plus a systematic sweep of every shape in every position of every command against a populated table; registrations whose port is nested "
         "up to the deepest value the decoder still accepts from inside _work (found by bisection on every run) followed by queries, and deep values "
         "in the other positions; real UDP/TCP loopback runs (numeric command, silent and partial TCP clients; a TCP server process with a lowered "
-        "descriptor limit receiving more unanswered requests than it has descriptors; stock server and client constants with one silent client). non-trivial = at least 3 datagrams of which at least 2 are well-formed commands; "
+        "descriptor limit receiving more unanswered requests than it has descriptors; stock server and client constants with one silent client; "
+        "60 / 90 registrants of one name and 48 bulky ports against the stock UDP client); answers beyond MAX_DGRAM_SIZE and NaN ports (plain and nested) "
+        "also without sockets. non-trivial = at least 3 datagrams of which at least 2 are well-formed commands; "
         "distinct by the full datagram sequence" % len(SHAPES))
     ctx.coverage_extra["facts"] = dict(zip(FACTS, gen_facts()))
     check_python_facts(ctx)
@@ -998,6 +1095,7 @@ def run(ctx):
     nmax = deepest_accepted()
     ctx.coverage_extra["deepest_port_nesting_acknowledged"] = nmax
     check_histories(ctx, model, deep_histories(nmax), "deep")
+    check_histories(ctx, model, big_histories(), "big")
     check_histories(ctx, model, systematic(), "systematic")
     n, nmax = (1300, 25) if ctx.quick else (40000, 60)
     check_histories(ctx, model, [gen_history(r, nmax) for _ in range(n)], "random")
@@ -1014,6 +1112,9 @@ def run(ctx):
         udp_run(ctx, ds)
     for sc in tcp_scripts:
         tcp_run(ctx, model, sc)
+    udp_big_run(ctx, [dg("RPYC", "REGISTER", (("foo",), 20000 + k)) for k in range(60)], "60-servers")
+    udp_big_run(ctx, [dg("RPYC", "REGISTER", (("foo",), 20000 + k)) for k in range(90)], "90-servers")
+    udp_big_run(ctx, [dg("RPYC", "REGISTER", (("foo",), chr(65 + k % 26) * 1400 + str(k))) for k in range(48)], "48-bulky-ports")
     tcp_leak_run(ctx, model, 12, 8)
     if not ctx.quick:
         tcp_leak_run(ctx, model, 30, 5, dg("nope", "QUERY", ("foo",)))
@@ -1033,6 +1134,8 @@ def replay(ctx, rep):
         udp_run(ctx, [bytes.fromhex(h) for h in case["datagrams"]])
     elif case.get("kind") == "tcp":
         tcp_run(ctx, model, case["script"])
+    elif case.get("kind") == "udp-big":
+        udp_big_run(ctx, [bytes.fromhex(h) for h in case["regs"]], case["label"])
     elif case.get("kind") == "tcp-leak":
         tcp_leak_run(ctx, model, case["spare"], case["extra"], bytes.fromhex(case["bad"]))
     elif case.get("kind") == "tcp-stock":
